@@ -118,15 +118,26 @@ class Bool(Shape):
         return v
 
 class Real(Shape):
+    def __init__(self, lo=None, hi=None):
+        self.lo, self.hi = lo, hi
     def build(self, b, name):
         if b.mode == 'sym':
-            return b.ctx.fresh_real(name, is_input=True)
+            r = b.ctx.fresh_real(name, is_input=True)
+            if self.lo is not None:
+                b.ctx.assume(r.t >= self.lo)
+            if self.hi is not None:
+                b.ctx.assume(r.t <= self.hi)
+            return r
         if name in b.values:
             v = b.values[name]
             if isinstance(v, dict):
                 return v['real'][0] / v['real'][1]
             return float(v)
         v = b.rng.choice([0.0, 1.0, -1.5, 3.25, 1e6, b.rng.uniform(-1e3, 1e3)])
+        if self.lo is not None and v < self.lo:
+            v = self.lo + abs(v)
+        if self.hi is not None and v > self.hi:
+            v = self.hi
         b.values[name] = v
         return v
 
